@@ -166,14 +166,19 @@ contract(
                                 z3.Not(S.fld('Expression', '_is_leaf', S.fld('Constraint', 'expression', a['self'].t))))) for n in VAL_E}),
 )
 
+# a multiplier is an opaque number object handed over by the solver wrapper (class tag DualVal): eval_dual returns THE stored object
+tag('DualVal')
+sx.FIELD_TYPES['Constraint._dual_variable_value'] = TOpt(TRef('DualVal'))
+sx.FIELD_TYPES['PSDMatrix._dual_variable_value'] = TOpt(TRef('DualVal'))
+
 contract(
-    CP + 'eval_dual', [('self', CT)], returns=TReal,
+    CP + 'eval_dual', [('self', CT)], returns=TRef('DualVal'),
     raises=[('ValueError', lambda S, a: S.fld_none('Constraint', '_dual_variable_value', a['self'].t))],
     ensures=lambda S0, S, a, res: [('value', res.t == S0.fld('Constraint', '_dual_variable_value', a['self'].t))],
 )
 
 contract(
-    MP + 'eval_dual', [('self', MT)], returns=TRef('ndarray'),
+    MP + 'eval_dual', [('self', MT)], returns=TRef('DualVal'),
     raises=[('ValueError', lambda S, a: S.fld_none('PSDMatrix', '_dual_variable_value', a['self'].t))],
     ensures=lambda S0, S, a, res: [('value', res.t == S0.fld('PSDMatrix', '_dual_variable_value', a['self'].t))],
 )
